@@ -16,7 +16,7 @@ RULE = ('Hypothesis base input as C01 (<=6 geos) x a drawn transformation: new r
         'range scaled by 2^k (k in -45..45, no under- or overflow for the generated magnitudes); both searches on base and transformed inputs, compared position by position up to '
         'the renaming / scaling, tie-tolerant. Thorough tier: ~1.5% of the cases are re-run in a child process under a different '
         'PYTHONHASHSEED. Non-trivial = >=1 design returned by some search and the transformation is not the identity; distinct by spec hash.')
-BUDGET = {'quick': 320, 'thorough': 8000}
+BUDGET = {'quick': 480, 'thorough': 8000}
 FLOOR = {'quick': 40, 'thorough': 1000}
 ROUNDS = {'quick': 2, 'thorough': 3}
 ASSUMPTIONS = ['equal adjacent scores (within 1e-9) form a tie class inside which groups may be permuted',
@@ -51,7 +51,7 @@ def _spec(draw, tier):
       'shift': draw(st.sampled_from([0, 0, 1, -1, 7, -7, 365, -400, 3])),
       'id_flip': draw(st.booleans()) and not spec['panel'].get('orphan_rows'),
       'rename': draw(st.booleans()),
-      'k': draw(st.sampled_from([0, 0, 1, -1, 3, -3, 8, -8, 5, -20, 20, -45, 45, -33, 30])),
+      'k': draw(st.sampled_from([0, 0, 1, -1, 3, -8, 8, -20, 20, -30, -33, -40, -45, 30, 45])),
       'row_labels': draw(st.sampled_from([None, 'kept', 'gaps', 'repeated'])),
   }
   spec['child_hashseed'] = draw(st.integers(1, 4000)) if (tier == 'thorough' and draw(st.integers(0, 60)) == 0) else None
